@@ -25,6 +25,9 @@ def run(chk):
     chk.rule("R-LOOPCARRY", "in every Cluster loop over the signals no variable is loop-carried (upward-exposed read of a name assigned in the body)")
     chk.rule("R-MASTER", "no signal is modified on the path where the loop variable equals master_index; the master average is taken "
                          "from signal_by_index(master_index); correction = values - (slave_average - master_average), same window")
+    chk.rule("R-LAGSEARCH", "time_match: for every non-master signal both lag loops over range(steps) run (one shifts the slave window, "
+                            "one the master window, the same residual otherwise; the selected lag is +i / -i accordingly) and the only "
+                            "ways out of the per-signal body are the master test and a test on the selected lag alone")
     chk.rule("R-KIND", "values handed to reset_values by the cluster stay arrays of unchanged length")
     rot_rules(chk)
     cluster_rules(chk)
@@ -32,6 +35,7 @@ def run(chk):
     chk.floor("R-ROT-SCAN", 8)
     chk.floor("R-LOOPVAR", 3)
     chk.floor("R-MASTER", 5)
+    chk.floor("R-LAGSEARCH", 6)
 
 
 def two_sigs(I, st, P):
@@ -268,3 +272,149 @@ def cluster_rules(chk):
                    derived="kind %s" % e.value.kind, loc=e.loc)
         if not stores:
             chk.ob("R-KIND", c, "the lag removal stores new values", False, derived="no store reached", inconclusive=True, loc=fi.loc())
+        lag_rules(chk, fi)
+
+
+def _roots(e):
+    """names an expression depends on, attribute chains on self kept whole"""
+    out = set()
+
+    def go(n):
+        if isinstance(n, ast.Attribute):
+            txt = ast.unparse(n)
+            if txt.startswith("self."):
+                out.add(txt)
+                return
+        if isinstance(n, ast.Name):
+            out.add(n.id)
+            return
+        if isinstance(n, ast.Call):
+            if not isinstance(n.func, (ast.Name, ast.Attribute)):
+                go(n.func)
+            elif isinstance(n.func, ast.Attribute) and not ast.unparse(n.func).startswith(("np.", "numpy.", "math.")):
+                go(n.func.value)
+            for a in n.args:
+                go(a)
+            for k in n.keywords:
+                go(k.value)
+            return
+        for ch in ast.iter_child_nodes(n):
+            go(ch)
+    go(e)
+    return out - {"abs", "len", "min", "max", "int", "float", "np", "numpy"}
+
+
+def lag_rules(chk, fi):
+    """Structure of the exhaustive lag search (syntax of one function; names are discovered, not assumed)."""
+    c = "eqsig/multiple.py:Cluster.time_match"
+    outer = [n for n in ast.walk(fi.node) if isinstance(n, ast.For) and "self.signals" in ast.unparse(n.iter) and "range" in ast.unparse(n.iter)]
+    if len(outer) != 1:
+        chk.ob("R-LAGSEARCH", c, "one loop over the signals", False, derived="%d loops" % len(outer), loc=fi.loc(), inconclusive=True)
+        return
+    lp = outer[0]
+    loopvar = lp.target.id if isinstance(lp.target, ast.Name) else "?"
+    inner = [n for n in ast.walk(lp) if isinstance(n, ast.For) and n is not lp and isinstance(n.iter, ast.Call) and
+             ast.unparse(n.iter.func) == "range" and isinstance(n.target, ast.Name)]
+    # the selected-lag variable(s): assigned inside a lag loop from the lag loop's variable alone
+    lagvars = set()
+    for il in inner:
+        for n in ast.walk(il):
+            if isinstance(n, ast.Assign) and len(n.targets) == 1 and isinstance(n.targets[0], ast.Name):
+                names = {x.id for x in ast.walk(n.value) if isinstance(x, ast.Name)}
+                if names and names <= {il.target.id}:
+                    lagvars.add(n.targets[0].id)
+    # (1) exits of the per-signal body
+    exits = []
+
+    def walk(stmts, chain, in_inner):
+        for k, stn in enumerate(stmts):
+            if isinstance(stn, (ast.Continue, ast.Break)) and not in_inner:
+                exits.append((stn, list(chain), k == len(stmts) - 1))
+            elif isinstance(stn, (ast.Return, ast.Raise)):
+                exits.append((stn, list(chain), k == len(stmts) - 1))
+            elif isinstance(stn, ast.If):
+                walk(stn.body, chain + [(stn.test, True)], in_inner)
+                walk(stn.orelse, chain + [(stn.test, False)], in_inner)
+            elif isinstance(stn, (ast.For, ast.While)):
+                walk(stn.body, chain + ([(stn.test, True)] if isinstance(stn, ast.While) else []), True)
+                walk(stn.orelse, chain, in_inner)
+            elif isinstance(stn, ast.Try):
+                for blk in (stn.body, stn.orelse, stn.finalbody):
+                    walk(blk, chain, in_inner)
+                for h in stn.handlers:
+                    walk(h.body, chain, in_inner)
+            elif isinstance(stn, ast.With):
+                walk(stn.body, chain, in_inner)
+    walk(lp.body, [], False)
+    for stn, chain, last in exits:
+        bad = []
+        for test, pol in chain:
+            r = _roots(test)
+            if r and (r <= {loopvar, "self.master_index"} and "self.master_index" in r):
+                continue
+            if r and r <= lagvars:
+                continue
+            bad.append(ast.unparse(test))
+        ok = not bad and (bool(chain) or last)
+        chk.ob("R-LAGSEARCH", c + "{exit: %s under %s}" % (type(stn).__name__.lower(), " & ".join(("" if pol else "not ") + ast.unparse(t) for t, pol in chain) or "no condition"),
+               "the per-signal body is left early only on the master test or on a test of the selected lag alone", ok,
+               derived="guarded by %s" % (bad if bad else "master / selected-lag tests only") if chain else "unconditional",
+               loc=fi.loc(stn), stmt=norm_stmt(stn),
+               detail="a lagged signal whose residual meets this data-dependent condition is left unaligned" if not ok else None)
+    if not exits:
+        chk.ob("R-LAGSEARCH", c + "{exits}", "the master is skipped by an early exit or a guard", True, derived="no early exit in the body", loc=fi.loc(lp))
+    # (2) the two directions
+    if len(inner) != 2:
+        chk.ob("R-LAGSEARCH", c + "{lag loops}", "two loops over range(steps), one per direction", False, derived="%d range loops in the signal loop" % len(inner),
+               loc=fi.loc(lp), inconclusive=True)
+        return
+    norm = Normaliser()
+    infos = []
+    for il in inner:
+        iv = il.target.id
+        rng = [norm.poly(a).canon() for a in il.iter.args]
+        wins = {}
+        for n in ast.walk(il):
+            if isinstance(n, ast.Subscript) and isinstance(n.value, ast.Name) and isinstance(n.slice, ast.Slice) and isinstance(n.ctx, ast.Load):
+                lo = norm.poly(n.slice.lower).canon() if n.slice.lower is not None else "0"
+                hi = norm.poly(n.slice.upper).canon() if n.slice.upper is not None else "end"
+                wins.setdefault(n.value.id, set()).add((lo, hi))
+        lag = None
+        cmpop = None
+        for n in ast.walk(il):
+            if isinstance(n, ast.Assign) and isinstance(n.targets[0], ast.Name) and n.targets[0].id in lagvars:
+                lag = norm.poly(n.value).canon()
+            if isinstance(n, ast.If) and isinstance(n.test, ast.Compare):
+                cmpop = (type(n.test.ops[0]).__name__, ast.unparse(n.test.left), ast.unparse(n.test.comparators[0]))
+        infos.append(dict(iv=iv, rng=rng, wins=wins, lag=lag, cmp=cmpop, node=il))
+    steps = infos[0]["rng"][0] if len(infos[0]["rng"]) == 1 else None
+    shape_ok = True
+    roles = []
+    for inf in infos:
+        iv = inf["iv"]
+        shifted = [a for a, w in inf["wins"].items() if w == {(norm.poly(ast.parse(iv, mode="eval").body).canon(),
+                                                                 norm.poly(ast.parse("%s - (%s)" % (iv, steps or "0"), mode="eval").body).canon())}]
+        fixed = [a for a, w in inf["wins"].items() if w == {("0", norm.poly(ast.parse("-(%s)" % (steps or "0"), mode="eval").body).canon())}]
+        good = inf["rng"] == [steps] and len(inf["wins"]) == 2 and len(shifted) == 1 and len(fixed) == 1
+        chk.ob("R-LAGSEARCH", c + "{lag loop over %s: windows}" % iv, "one window [i : i - steps] and one window [0 : -steps] on two arrays, i over range(steps)",
+               good, derived="range%s windows %s" % (inf["rng"], {a: sorted(w) for a, w in sorted(inf["wins"].items())}), loc=fi.loc(inf["node"]))
+        shape_ok = shape_ok and good
+        roles.append((shifted[0] if shifted else None, fixed[0] if fixed else None))
+    if shape_ok:
+        chk.ob("R-LAGSEARCH", c + "{both directions}", "the two lag loops shift different arrays (slave lags master, master lags slave)",
+               roles[0][0] == roles[1][1] and roles[0][1] == roles[1][0], derived="shifted/fixed: %s" % roles, loc=fi.loc(inner[0]))
+        # which array is the slave: the one whose slices make up the values handed to reset_values
+        pads = [n for n in ast.walk(lp) if isinstance(n, ast.Subscript) and isinstance(n.value, ast.Name) and isinstance(n.slice, ast.Slice)
+                and not any(n in list(ast.walk(il)) for il in inner) and _roots(n.slice) & lagvars]
+        slave = {n.value.id for n in pads}
+        if len(slave) == 1:
+            sl = next(iter(slave))
+            for inf, (sh, fx) in zip(infos, roles):
+                want = norm.poly(ast.parse(inf["iv"] if sh == sl else "-" + inf["iv"], mode="eval").body).canon()
+                chk.ob("R-LAGSEARCH", c + "{lag loop over %s: sign}" % inf["iv"], "selected lag is +i where the slave window is shifted, -i where the master window is",
+                       inf["lag"] == want, derived="lag = %s, shifted array %s, slave %s" % (inf["lag"], sh, sl), loc=fi.loc(inf["node"]))
+        else:
+            chk.ob("R-LAGSEARCH", c + "{slave}", "the padded array identifies the slave", False, derived="%s" % sorted(slave), loc=fi.loc(lp), inconclusive=True)
+        chk.ob("R-LAGSEARCH", c + "{selection}", "both loops keep the smaller residual with the same comparison", infos[0]["cmp"] == infos[1]["cmp"] and
+               infos[0]["cmp"] is not None and infos[0]["cmp"][0] in ("Lt", "LtE", "Gt", "GtE"), derived="%s / %s" % (infos[0]["cmp"], infos[1]["cmp"]),
+               loc=fi.loc(inner[0]))
